@@ -56,9 +56,9 @@ def uses_child(p):
     return p is not None and any(op[0] in ('disp', 'await_tmo') for op in P_PROGS[p])
 
 
-def scenarios(tier, *, timeouts=(None,), allow_raise=True, allow_tmo_await=True, allow_parallel=True, allow_forward=True, racing='thorough', main_mode='ff'):
-    """yields (sid, scn, meta).  meta: dict(cb, par_a, par_b, fwd, p1, p2, c1, c2, tp)"""
-    deep = tier == 'thorough'
+def scenarios(grammar, *, timeouts=(None,), allow_raise=True, allow_tmo_await=True, allow_parallel=True, allow_forward=True, racing=False, main_mode='ff'):
+    """yields (sid, scn, meta).  meta: dict(cb, par_a, par_b, fwd, p1, p2, c1, c2, tp).  grammar: 'quick' (sub-alphabets) | 'full'"""
+    deep = grammar == 'full'
     p1s = list(P_PROGS) if deep else QUICK_P1
     p2s = [None, 'pause', 'aw', 'pause_raise', 'pause_raise_tmo', 'ff_pause', 'pause_aw', 'raise', 'tmo_aw'] if deep else QUICK_P2
     c1s = list(C_PROGS) if deep else QUICK_C1
@@ -127,7 +127,7 @@ def scenarios(tier, *, timeouts=(None,), allow_raise=True, allow_tmo_await=True,
                 actors = [[('pause', 'stall'), ('disp', 'A', 'X9', 'ff')]]
             elif main_mode == 'idle':
                 main += [('pause',)] + [('idle', b) for b in names]
-            if racing == 'always' or (racing == 'thorough' and deep):
+            if racing:
                 hs.append(dict(bus=cb, pat='Y', name='hy', prog=[('ret', 0)]))
                 actors = actors + [[('pause',), ('disp', cb, 'Y', 'ff')]]
             buses = {'A': dict(parallel=par_a)}
@@ -141,13 +141,25 @@ def scenarios(tier, *, timeouts=(None,), allow_raise=True, allow_tmo_await=True,
 
 
 def family(prop, tier, params=None, cfg=None, **kw):
-    """specs of family '<prop>.generated' for one property"""
-    deep = tier == 'thorough'
-    base = dict(bound=2 if deep else 1, cap=4000 if deep else 300, window=0.7, max_targets=2)
-    base.update(cfg or {})
+    """specs of family '<prop>.generated' for one property.
+
+    quick    : the sub-grammar, every schedule with <= 1 deviation
+    thorough : two exhaustive passes -- (a) the sub-grammar plus an external dispatcher racing with everything, every schedule with
+               <= 2 deviations; (b) the full grammar, every schedule with <= 1 deviation (the full grammar at 2 deviations is
+               ~2 * 10^6 executions per property and did not finish in 90 minutes on this machine; DESIGN.md section 10)
+    """
+    kw.pop('racing', None)
+    if tier == 'thorough':
+        passes = [('gen2', 'quick', True, dict(bound=2, cap=1500, window=0.7, max_targets=2)),
+                  ('genF', 'full', False, dict(bound=1, cap=300, window=0.7, max_targets=2))]
+    else:
+        passes = [('gen', 'quick', False, dict(bound=1, cap=300, window=0.7, max_targets=2))]
     out = []
-    for sid, scn, meta in scenarios(tier, **kw):
-        p = dict(params or {})
-        p.update(gen=meta)
-        out.append(dict(prop=prop, family=f'{prop.lower()}.generated', id=f'{prop.lower()}.gen/{sid}', cfg=base, params=p, scn=scn))
+    for tag, grammar, racing, base in passes:
+        base = dict(base)
+        base.update({k: v for k, v in (cfg or {}).items() if k not in ('bound', 'cap')})
+        for sid, scn, meta in scenarios(grammar, racing=racing, **kw):
+            p = dict(params or {})
+            p.update(gen=meta)
+            out.append(dict(prop=prop, family=f'{prop.lower()}.generated' + ('_full' if tag == 'genF' else ''), id=f'{prop.lower()}.{tag}/{sid}', cfg=base, params=p, scn=scn))
     return out
